@@ -80,6 +80,11 @@ def cases(draw):
         for j in range(i + 1, n):
             if blocks[j]['kind'] in ('probe', 'input') and draw(st.integers(0, 9)) < 5:
                 blocks[i]['emits'].append(j)
+    # conditional events that always resolve to 'no event': nothing is delivered and nothing may change,
+    # in particular not the saved state of a destination that is still waiting for its restoration
+    for i in range(n):
+        blocks[i]['noops'] = [j for j in range(i + 1, n)
+                              if blocks[j]['kind'] in ('probe', 'input') and draw(st.integers(0, 9)) < 3]
     # an Input without initdef is mostly given a chance: somebody sends it an event
     for j in range(1, n):
         if blocks[j]['kind'] == 'input' and not any(j in b['emits'] for b in blocks) \
@@ -354,7 +359,8 @@ def run_order(case, order):
         for i in order:
             b = blocks[i]
             name = f'b{i}'
-            evs = [edzed.Event(f'b{j}', 'put') for j in b['emits']]
+            evs = ([edzed.Event(f'b{j}', edzed.EventCond(None, None)) for j in b.get('noops', [])]
+                   + [edzed.Event(f'b{j}', 'put') for j in b['emits']])
             if b['kind'] == 'probe':
                 kw = {}
                 if b['initdef'] is not None:
@@ -562,7 +568,7 @@ def execute(case, all_orders=False):
         delivered = max(delivered, model.events_delivered)
     if len(set(verdicts.values())) > 1:
         res.fail('C05.order_dependent', f"start-up verdict depends on the creation order: {verdicts}")
-    kinds = {(b['kind'], str({k: v for k, v in b.items() if k not in ('kind', 'emits')})) for b in blocks}
+    kinds = {(b['kind'], str({k: v for k, v in b.items() if k not in ('kind', 'emits', 'noops')})) for b in blocks}
     res.nontrivial = len(kinds) >= 2 and (started_async >= 1 or delivered >= 1)
     res.evals = len(orders)
     res.classes = [f'blocks={len(blocks)}', 'verdict ' + '/'.join(sorted(set(verdicts.values())))]
